@@ -241,13 +241,16 @@ for hn, fn, cl in (("h_walks", "Clear / Size / Capacity", "pools of <= 3 chunks:
                    ("h_copy_assign", "operator=(const MemoryPoolAllocator&)", "unrelated pools, two copies of one pool, and self-assignment: owner counts, release of the previous pool exactly when it lost its last owner, nothing released for aliases")):
     C16_JOBS.append(dict(id="C16.%s" % hn[2:], src="c16_alloc.c", harness=hn, units=C16_LIFE, defs=["UNIT_Lifecycle"], arch="simple", route="B(<=3 chunks)", bound="chunk list length <= 3, capacities <= 64",
                          function="MemoryPoolAllocator::" + fn, unwind=5, timeout=900, replay="pool_life", claims="bounded: " + cl))
+C16_JOBS.append(dict(id="C16.AlignBuffer", src="c16_alloc.c", harness="h_AlignBuffer", units=C16_UNITS + ["MemoryPoolAllocator.AlignBuffer"], defs=["UNIT_AlignBuffer"], arch="simple", route="L",
+    function="MemoryPoolAllocator::AlignBuffer", timeout=600, replay="alignbuffer",
+    claims="user buffers of 8..4096 bytes at any misalignment: the result is pointer-aligned, lies inside the buffer, skips fewer than 8 bytes and the size shrinks by exactly the skipped bytes; the repo's sonic_assert(size >= skipped) holds"))
 PROPS["C16"] = dict(level="other", jobs=C16_JOBS, trusted_base=COMMON_TRUST, assumptions=[], undecided=[], explanation="")
 
 
 # ===================================================================================== C06 (growth contracts of the write buffer)
 C06_UNITS = ["SONIC_ALIGN", "Stack.fields", "Stack.Size", "Stack.Capacity", "Stack.Clear", "Stack.setZero", "Stack.Reserve", "Stack.Grow", "Stack.Push_char",
              "Stack.PushUnsafe_char", "Stack.PushSize_char", "Stack.PushSizeUnsafe_char", "Stack.Pop_char", "Stack.End_char", "Stack.Begin_char",
-             "Stack.Push_str", "Stack.PushUnsafe_str", "Stack.Push5_8"]
+             "Stack.Push_str", "Stack.PushUnsafe_str", "Stack.Push5_8", "WriteBuffer.ToString"]
 OBS_REALLOC = []
 def c06(id, harness, **kw):
     d = dict(id="C06." + id, src="c06_stack.c", harness=harness, units=C06_UNITS, defs=[], arch="-", route="L", timeout=900, small_cex=True, observe=OBS_REALLOC,
@@ -262,6 +265,8 @@ for st, sd, off in (("allocated", [], []), ("null", ["NULL_STATE=1"], [])):
         claims="any well-formed buffer (capacity 0, partly filled, full), any request 1..2^40: capacity becomes max(old, request); block of SONIC_ALIGN(capacity) bytes; Size() and the first Size() bytes preserved (ghost index)" + note),
     c06("Stack.Grow@" + st, "h_Grow", function="Stack::Grow (+Reserve inlined)", enforce="Stack_Grow", replay="stack_grow", defs=sd, checks_off=off,
         claims="any well-formed buffer, any cnt (cnt >= 1 or capacity >= 1): afterwards End()+cnt <= Begin()+Capacity(); capacity never shrinks; size and contents preserved; both growth branches" + note),
+    c06("WriteBuffer.ToString@" + st, "h_ToString", function="WriteBuffer::ToString (+Grow, Reserve inlined)", replay="stack_grow", defs=sd, checks_off=off,
+        claims="any starting state: returns Begin(); the NUL terminator is written at End(), inside the allocation; length and contents unchanged" + note),
     c06("Stack.pushers@" + st, "h_pushers", function="Stack::Push<char> / Push(s,n) / Push5_8 / PushSize / PushUnsafe / PushSizeUnsafe (+Grow, Reserve inlined)", replay="stack_push", defs=sd, checks_off=off,
         claims="every emitter writes only inside the capacity it reserved, appends the stated number of bytes, keeps earlier contents; Grow(k) followed by unchecked pushes of <= k bytes stays inside the capacity" + note),
     ]
